@@ -61,6 +61,9 @@ Judge(c) ==
   IF c.k = "exc" THEN "BAD:exception:" \o c.t
   ELSE IF c.class = "coincident" THEN (IF Len(c.segs) = 0 /\ c.line = 0 THEN "ok:coincident-nothing" ELSE "BAD:coincident-endpoints-gave-segments")
   ELSE IF c.class = "zeroradius" THEN (IF c.line = 1 /\ c.endexact = 1 THEN "ok:zero-radius-line" ELSE "BAD:zero-radius-not-a-line")
+  \* end points that differ, however little, are joined by something that ends exactly at the end
+  ELSE IF c.class = "tiny" THEN (IF Len(c.segs) = 0 /\ c.line = 0 THEN "BAD:distinct-endpoints-gave-nothing"
+                                 ELSE IF c.endexact # 1 THEN "BAD:does-not-end-exactly-at-end" ELSE "ok:tiny-arc")
   ELSE IF Len(c.segs) = 0 \/ c.line = 1 THEN "BAD:no-cubics"
   ELSE IF c.endexact # 1 THEN "BAD:does-not-end-exactly-at-end"
   ELSE IF c.startok # 1 THEN "BAD:does-not-start-at-start"
